@@ -318,6 +318,14 @@ class WriterExec:
         self.init = init
         self.kinds = init["kinds"]
         self.names = [f"w{i}_{k}" for i, k in enumerate(self.kinds)]
+        # column names are text like any other: they may hold the separator in use, a blank or a quote character
+        style = init.get("name_style", "plain")
+        if style == "holds-separator":
+            self.names = [f"w{i}{init.get('sep', chr(9))} {k}" if i % 2 == 0 else nm for i, (nm, k) in enumerate(zip(self.names, self.kinds))]
+        elif style == "blank":
+            self.names = [nm.replace("_", " ") for nm in self.names]
+        elif style == "leading-quote":
+            self.names = [('"' + nm) if i % 2 == 0 else (nm + '"q') for i, nm in enumerate(self.names)]
         ext = ".parquet" if init["fmt"] == "parquet" else ".tab"
         self.path = Path(tmp) / f"out{ext}"
         pa_types = {"int": pa.int64(), "float": pa.float64(), "bool": pa.bool_(), "str": pa.string(), "mixed": pa.float64()}
@@ -481,12 +489,13 @@ def extra(tier, seed, shard, nshards, stats):
         @initialize(fmt=st.sampled_from(["tsv", "parquet"]), buffer_size=st.sampled_from([0, 0, 2, 3, 4, 5, 9]),
                     buffer_kind=st.sampled_from(["frame", "dicts", "records"]),
                     kinds=st.lists(st.sampled_from(WRITER_KINDS), min_size=1, max_size=4),
-                    sep=st.sampled_from(["\t", "\t", ",", ";", "|"]))
-        def init(self, fmt, buffer_size, buffer_kind, kinds, sep):
+                    sep=st.sampled_from(["\t", "\t", ",", ";", "|"]),
+                    name_style=st.sampled_from(["plain", "plain", "plain", "holds-separator", "blank", "leading-quote"]))
+        def init(self, fmt, buffer_size, buffer_kind, kinds, sep, name_style):
             counter["n"] += 1
             d = tmp_root / f"m{counter['n']}"
             d.mkdir()
-            init = {"fmt": fmt, "buffer_size": buffer_size, "buffer_kind": buffer_kind, "kinds": kinds, "sep": sep}
+            init = {"fmt": fmt, "buffer_size": buffer_size, "buffer_kind": buffer_kind, "kinds": kinds, "sep": sep, "name_style": name_style}
             self.ops = [init]
             self._step(lambda: setattr(self, "ex", WriterExec(d, init)))
 
